@@ -648,6 +648,8 @@ def c17(sess):
                         known = "D9"
                     elif findings.trig_rerun_of_transitioned(base.s):
                         known = "D21"
+                    elif findings.trig_idle_items_while_held(base.s) or findings.trig_idle_items_while_held(clean.s):
+                        known = "D24"
                     if rf["status"] != cf["status"]:
                         v = {"what": "after the default rerun with all re-executed actions succeeding the workflow ends %s; "
                                      "the clean run ends %s" % (rf["status"], cf["status"]), "step": len(ops) - 1, "ops": ops}
